@@ -20,8 +20,10 @@ LEVEL = ('decides the wiring of reification: the wrapped propagator runs only on
          'linear-form domain on a 5-value window (R10). next_local_id only grows (R11); propagate '
          'consumes the cached inconsistency on every path under no further condition (R12 MUST-PASS); '
          'wrapped incremental propagators never drop pending updates silently and reset un-trailed '
-         'accumulators on backtrack (R13 = C08-H5, R14 = C17-L20). Does not decide that wrapped '
-         "propagators or the negations' arithmetic are right")
+         'accumulators on backtrack (R13 = C08-H5, R14 = C17-L20). Every detect_inconsistency override'
+         ' is confirmed or decided against the tabulated relation of its propagator on all bound boxes'
+         " of a [-3,3] window (R16). Does not decide that wrapped propagators or the negations' "
+         'arithmetic are right')
 TECHNIQUE = "static analysis: dominance / FORWARD-ALL / taint through closures / sibling agreement over rustc MIR"
 
 REIF = "ReifiedPropagator"
@@ -640,6 +642,98 @@ def r11(led, rid, ctx):
     led.floor(rid, "writes of next_local_id", n, 1)
 
 
+# relations of the scalar arithmetic propagators, by field name (used to decide detect_inconsistency)
+R16_RELATIONS = {
+    "AbsoluteValuePropagator": (("signed", "absolute"), lambda v: v["absolute"] == abs(v["signed"])),
+    "IntegerMultiplicationPropagator": (("a", "b", "c"), lambda v: v["a"] * v["b"] == v["c"]),
+}
+# overrides whose soundness is argued elsewhere: propagator -> where
+R16_CONFIRMED = {
+    "LinearLessOrEqualPropagator": "c < Σ lb(x_i), the sum being the trailed value maintained in notify (C17-L5/L20, C16-ARITH)",
+}
+
+
+def r16(led, rid, ctx):
+    """DETECT-INCONSISTENCY TABLE: a reified propagator uses the wrapped propagator's
+    detect_inconsistency to set r false before the constraint is enabled.  Every override is either
+    the confirmed one, or belongs to a propagator whose relation is tabulated and is then decided
+    on all bound boxes of a [-3,3] window: Some(_) only if no point of the box satisfies the
+    relation.  An override of any other propagator is reported (nothing here can argue it)."""
+    import itertools
+    from ..predalg import ev, Unknown, feasible
+    lib = ctx.lib
+    n = 0
+    W = range(-3, 4)
+    for imp in lib.impls_of("Propagator"):
+        if "/tests" in imp["span"] or "::tests::" in (imp.get("self_ty") or ""):
+            continue
+        f = lib.impl_fn(imp, "detect_inconsistency")
+        if f is None or "/tests" in f.file or "::tests::" in f.defn or "/propagators/" not in f.file:
+            continue
+        who = (imp.get("self_adt") or "?").rsplit("::", 1)[-1]
+        if who == "ReifiedPropagator":
+            continue
+        n += 1
+        if who in R16_CONFIRMED:
+            led.ok(rid, "%s:detect_inconsistency" % who, f.span, "CONFIRMED: " + R16_CONFIRMED[who])
+            continue
+        if who not in R16_RELATIONS:
+            led.bad(rid, "%s:detect_inconsistency" % who, f.span,
+                    "%s overrides detect_inconsistency: under reification its answer sets r false, and this rule has "
+                    "neither a confirmation nor a relation for that propagator to decide the answer with" % who)
+            continue
+        fields, rel = R16_RELATIONS[who]
+        paths = [p for p in SymExec(f, max_paths=400).run() if not p.diverged and p.ret is not None]
+        bad = None
+        decided = 0
+        boxes = [(lo, hi) for lo in W for hi in W if lo <= hi]
+        try:
+            for box in itertools.product(boxes, repeat=len(fields)):
+                b = dict(zip(fields, box))
+
+                def leaf(e, b=b):
+                    if e.k == "call":
+                        nm = e.a.name
+                        if nm in ("lower_bound", "upper_bound") and e.b:
+                            fl = e.b[-1].fields()
+                            if fl and fl[-1] in b:
+                                return b[fl[-1]][0 if nm == "lower_bound" else 1]
+                        if nm == "abs" and e.b:
+                            return abs(ev(e.b[0], leaf))
+                        if nm in ("min", "max") and len(e.b) == 2:
+                            return (min if nm == "min" else max)(ev(e.b[0], leaf), ev(e.b[1], leaf))
+                    return None
+                for p in paths:
+                    if not feasible(p.conds, leaf):
+                        continue
+                    # every condition must have been decidable
+                    for cond, val, others in p.conds:
+                        if cond.k != "discr":
+                            ev(cond, leaf)
+                    r = peel(p.ret, calls=None)
+                    if not (r.k == "agg" and (r.a or "").endswith("Option")):
+                        raise Unknown(show(r)[:60])
+                    decided += 1
+                    if r.b == "Some":
+                        pts = itertools.product(*[range(b[x][0], b[x][1] + 1) for x in fields])
+                        for pt in pts:
+                            v = dict(zip(fields, pt))
+                            if rel(v):
+                                bad = bad or ("reports an inconsistency for the bounds %s although %s satisfies the "
+                                              "constraint" % (", ".join("%s∈[%d,%d]" % (x, b[x][0], b[x][1]) for x in fields),
+                                                              ", ".join("%s=%d" % kv for kv in v.items())))
+                                break
+                if bad:
+                    break
+        except Unknown as u:
+            bad = "tests %s, which this rule cannot evaluate" % u
+        led.check(bad is None and decided > 0, rid, "%s:detect_inconsistency" % who, f.span,
+                  "%d (box, path) rows: Some(_) only on boxes without a solution" % decided,
+                  "%s::detect_inconsistency %s: under reification r is forced false although r = true has a "
+                  "solution" % (who, bad))
+    led.floor(rid, "detect_inconsistency overrides", n, 1)
+
+
 def r12(led, rid, ctx):
     """MUST-PASS: a conflict the wrapped propagator reported while the literal was not yet true is
     cached; `propagate` consumes the cache on every path and turns it into r = false (or into the
@@ -682,6 +776,7 @@ def run(ctx, led):
     run_rule(led, "R15", "no post / implied_by returns Ok(()) without posting (shared with C01-S18)", _C01.s18, ctx)
     run_rule(led, "R13", "a wrapped incremental propagator that is notified but not run under r = false never discards pending updates silently (shared with C08-H5)", _C08.h5, ctx)
     run_rule(led, "R14", "INCREMENTAL-RESET of un-trailed accumulators on backtrack (shared with C17-L20)", _C17.l20, ctx)
+    run_rule(led, "R16", "DETECT-INCONSISTENCY TABLE: every override is confirmed or decided against the propagator's relation on a window", r16, ctx)
     run_rule(led, "R12", "MUST-PASS: propagate consumes the cached inconsistency on every path, under no further condition", r12, ctx)
     run_rule(led, "R1", "the wrapped propagator runs only under r true, on a reified context, and its "
              "conflict gets [r = true]", r1, ctx)
